@@ -194,6 +194,7 @@ def run(ctx):
         tape.uninstall()
         mpc.run(mpc.shutdown())
     _sim_streams(ctx, rng, st)
+    _np_stream(ctx, st)
     _evaluate(ctx, st, ok)
 
 
@@ -730,6 +731,18 @@ def _sim_cases(rng, n_scale):
     for A in (5, -3, 100):
         for mode in ('reverse', 'del_last_reverse', 'append', 'overwrite'):
             C.append(('alias_to_from', A, mode))
+    for mode in ('reverse', 'del_last', 'append', 'overwrite'):
+        n = rng.choice([3, 5, 7])
+        xs = rng.sample(range(2, 30), n)
+        pos = rng.randrange(1, n - 1)              # neither first nor last: every mutation changes the answer or the list
+        C.append(('alias_indexOf', mode, xs, xs[pos], rng.random() < 0.5))
+        C.append(('alias_find_nonbits', mode, xs, xs[pos]))
+    # the secure index object is reused: call twice on the same object and read it afterwards
+    for tn in ('int8', 'fxp84', 'gf101'):
+        for (a, n) in [(3, 5), (0, 4), (6, 7), (rng.randrange(1, 8), 8)]:
+            C.append(('uv_twice', tn, a, n))
+    for tn in ('int8', 'fxp84', 'gf101'):
+        C.append(('reuse_arg', tn, rng.randrange(1, 100)))
     # the in-package caller that reuses the to_bits list in place: runtime._norm (secfxp reciprocal / division)
     for A in [16, 24, -16, 127, -128, 1, -1, 37, -90]:
         C.append(('norm', A))
@@ -867,6 +880,40 @@ def _sim_prog(cases):
                     z = mpc.from_bits(x)
                     _mutate(x, mode, one)
                     r = await opn(z)
+                elif kind == 'alias_indexOf':
+                    _, mode, xs, a, asec = c
+                    x = share(secint8, xs)
+                    one = share(secint8, [1])[0]
+                    aa = share(secint8, [a])[0] if asec else a
+                    z = mpc.indexOf(x, aa)
+                    _mutate(x, mode, one)
+                    r = await opn(z)
+                elif kind == 'alias_find_nonbits':
+                    _, mode, xs, a = c
+                    x = share(secint8, xs)
+                    one = share(secint8, [1])[0]
+                    z = mpc.find(x, a, bits=False)
+                    _mutate(x, mode, one)
+                    r = await opn(z)
+                elif kind == 'uv_twice':
+                    _, tn, a, n = c
+                    stype = F[101] if tn == 'gf101' else T[tn]
+                    idx = share(stype, [a * 16 if tn == 'fxp84' else a])[0]
+                    u1 = mpc.unit_vector(idx, n)
+                    u2 = mpc.unit_vector(idx, n)
+                    r = [await opn(u1), await opn(idx), await opn(u2), await opn(mpc.unit_vector(idx, n))]
+                elif kind == 'reuse_arg':
+                    # every scalar-taking function of the property leaves its secure argument intact
+                    _, tn, v = c
+                    stype = F[101] if tn == 'gf101' else T[tn]
+                    a = share(stype, [v])[0]
+                    b1 = mpc.to_bits(a)
+                    b2 = mpc.to_bits(a)
+                    r = [await opn(b1), await opn(a), await opn(b2)]
+                    if tn == 'int8':
+                        t1 = mpc.trailing_zeros(a)
+                        g1 = mpc.gcp2(a, a)
+                        r += [await opn(g1), await opn(a), await opn(mpc.gcp2(a, a)), len(await opn(t1))]
                 elif kind == 'norm':
                     a = share(secfxp84, [c[1]])[0]
                     v = mpc._norm(a)
@@ -883,8 +930,7 @@ def _sim_prog(cases):
 
 def _canon(u):
     if isinstance(u, float):
-        assert u == int(u), u
-        return int(u)
+        return int(u) if u == int(u) else u
     return int(u)
 
 
@@ -938,7 +984,7 @@ def _sim_check(ctx, rng, st, cfg, meta, c, got):
     def bad(sig, want):
         violation('%s [%s]' % (sig, cfg), dict(key, got=str(got)[:300], want=str(want)[:300]))
 
-    ctx.case(key, nontrivial=True, kind='sim %s %s' % (cfg, kind if kind not in ('alias', 'alias_to_from') else 'alias'))
+    ctx.case(key, nontrivial=True, kind='sim %s %s' % (cfg, kind if not kind.startswith('alias') else 'alias'))
     if isinstance(got, str) and kind != 'to_bits_fld':
         bad('sim-raises %s in %s' % (got, kind), 'no exception')
         return
@@ -1038,6 +1084,39 @@ def _sim_check(ctx, rng, st, cfg, meta, c, got):
         _, A, mode = c
         if got % meta['p']['int8'] != A % 256:
             bad('aliasing-from_bits(to_bits) caller-%s' % mode, A % 256)
+    elif kind == 'alias_indexOf':
+        _, mode, xs, a, asec = c
+        if got != xs.index(a):
+            bad('aliasing-indexOf caller-%s' % mode, xs.index(a))
+    elif kind == 'alias_find_nonbits':
+        _, mode, xs, a = c
+        if got != xs.index(a):
+            bad('aliasing-find(bits=False) caller-%s' % mode, xs.index(a))
+    elif kind == 'uv_twice':
+        _, tn, a, n = c
+        e_a = [0] * a + [1] + [0] * (n - 1 - a)
+        u1, idx, u2, u3 = got
+        if u1 != e_a:
+            bad('unit_vector-wrong n=%d a=%d' % (n, a), e_a)
+        elif idx != a or u2 != e_a or u3 != e_a:
+            bad('unit_vector-index-reuse %s' % tn, [e_a, a, e_a, e_a])
+        model('unit_vector %s %s' % (zlit(a), zlit(n)), u2, key, 'unit_vector')
+    elif kind == 'reuse_arg':
+        _, tn, v = c
+        if tn == 'fxp84':
+            A, l = v, 8                       # v/16 shared: field integer v
+            av = None
+        else:
+            A, l = v, {'int8': 8, 'gf101': 7}[tn]
+        want_bits = bits_ref(A, l)
+        a_read = got[1]
+        ok_a = (abs(a_read - v / 16) < 1e-9) if tn == 'fxp84' else a_read == v
+        if got[0] != want_bits or got[2] != want_bits or not ok_a:
+            bad('to_bits-argument-reuse %s' % tn, [want_bits, v, want_bits])
+        if tn == 'int8':
+            g = 1 << v2(v, 8)
+            if got[3] != g or got[4] != v or got[5] != g or got[6] != 8:
+                bad('gcp2-argument-reuse', [g, v, g, 8])
     elif kind == 'norm':
         a = c[1] / 16
         v, b = got
@@ -1048,6 +1127,56 @@ def _sim_check(ctx, rng, st, cfg, meta, c, got):
         a = c[1] / 16
         if abs(got[0] - 1 / a) > 4 * 2**-4 * (1 + abs(1 / a)):
             bad('reciprocal-wrong', 1 / a)
+
+
+NP_CODE = r'''
+import sys, json
+sys.argv = ['np', '--no-log']
+from mpyc.runtime import mpc
+mpc.run(mpc.start())
+out = []
+def opn(v):
+    r = mpc.run(mpc.output(v))
+    return [float(int(x)) if not isinstance(x, (int, float)) else float(x) for x in (r.tolist() if hasattr(r, 'tolist') else [r])]
+for name, st in [('secint', mpc.SecInt(16)), ('secfxp', mpc.SecFxp(16, 8)), ('secfld', mpc.SecFld(101))]:
+    for (v, n) in [(3, 5), (0, 4), (6, 7), (1, 2)]:
+        a = st(v)
+        try:
+            u1 = opn(mpc.np_unit_vector(a, n)); a_after = opn(a)[0]; u2 = opn(mpc.np_unit_vector(a, n))
+            out.append([name, v, n, u1, a_after, u2])
+        except Exception as e:
+            out.append([name, v, n, 'EXC ' + type(e).__name__ + ': ' + str(e)[:100]])
+mpc.run(mpc.shutdown())
+print('RESULT ' + json.dumps(out))
+'''
+
+
+def _np_stream(ctx, st):
+    """np_unit_vector (NumPy sibling of unit_vector) on a reused index object, under the NumPy interpreter."""
+    import os, subprocess, json
+    from lib.core import PYNP, REPO
+    if not os.path.exists(PYNP):
+        ctx.notes.append('np_unit_vector index-reuse stream skipped: no NumPy interpreter at %s' % PYNP)
+        return
+    env = dict(os.environ, PYTHONPATH=REPO, PYTHONHASHSEED='0')
+    p = subprocess.run([PYNP, '-c', NP_CODE], env=env, stdout=subprocess.PIPE, stderr=subprocess.PIPE, text=True, timeout=300)
+    line = [ln for ln in p.stdout.split('\n') if ln.startswith('RESULT ')]
+    if p.returncode or not line:
+        st.violation('np_unit_vector-stream-crashed', {'stderr': p.stderr[-1500:]})
+        return
+    for rec in json.loads(line[-1][7:]):
+        name, v, n = rec[:3]
+        key = {'fn': 'np_unit_vector', 'type': name, 'a': v, 'n': n}
+        ctx.case(key, nontrivial=True, kind='np_unit_vector index reuse (m=1, NumPy)')
+        e_a = [0.0] * v + [1.0] + [0.0] * (n - 1 - v)
+        if isinstance(rec[3], str):
+            st.violation('np_unit_vector-raises %s' % name, dict(key, got=rec[3]))
+            continue
+        u1, a_after, u2 = rec[3:]
+        if u1 != e_a:
+            st.violation('np_unit_vector-wrong %s' % name, dict(key, got=u1, want=e_a))
+        elif a_after != float(v) or u2 != e_a:
+            st.violation('np_unit_vector-mutates-index %s' % name, dict(key, first=u1, a_after=a_after, second=u2, want=e_a))
 
 
 def _evaluate(ctx, st, ok):
